@@ -138,6 +138,37 @@ def tiny_hemiola(k):
     return {"id": None, "parts": [part], "groups": None}
 
 
+def tiny_pickup_half(k):
+    """a boundary score: an upbeat in a meter of half notes (2/2 or 3/2), one or two full bars, then a change to a
+    longer bar (3/2, 5/4, 6/4, 9/8) - the positions of the signatures are then neither at beat 0 nor in quarters"""
+    first = k.choice(((2, 2), (2, 2), (3, 2)))
+    later = k.choice([x for x in ((3, 2), (5, 4), (6, 4), (9, 8)) if x[0] * 4 / x[1] > first[0] * 4 / first[1]] or [(9, 2)])
+    q = 2
+    up = k.choice((1, 2)) * q  # one quarter or one half
+    n1 = k.choice((1, 2))
+    lens = [up] + [first[0] * 4 * q // first[1]] * n1 + [later[0] * 4 * q // later[1]] * 2
+    measures, notes, t = [], [], 0
+    for m, L in enumerate(lens):
+        measures.append({"s": t, "e": t + L, "number": m + 1, "name": str(m)})
+        pos = t
+        while pos < t + L:
+            d = min(k.choice((q, q, 2 * q)), t + L - pos)
+            if (t + L - pos) % q:
+                d = t + L - pos if t + L - pos < q else d
+            notes.append({"id": "p1n%d" % (len(notes) + 1), "kind": "note", "t": pos, "e": pos + d, "voice": 1, "staff": 1, "sym": None, "m": m, "g": None, "step": "CDEFGAB"[len(notes) % 7], "alter": None, "octave": 4})
+            pos += d
+        t += L
+    part = {
+        "id": "P1", "name": "Part P1", "abbr": None, "qdivs": [[0, q]], "nstaves": 1, "end": t,
+        "measures": measures,
+        "timesigs": [{"t": 0, "beats": first[0], "beat_type": first[1]}, {"t": measures[1 + n1]["s"], "beats": later[0], "beat_type": later[1]}],
+        "keysigs": [{"t": 0, "fifths": 0, "mode": "major"}],
+        "clefs": [{"t": 0, "staff": 1, "sign": "G", "line": 2, "oct": 0}],
+        "notes": notes, "slurs": [], "tuplets": [], "dirs": [], "tempos": [], "repeats": [], "endings": [], "nav": [], "fermatas": [],
+    }
+    return {"id": None, "parts": [part], "groups": None}
+
+
 def generate(seed, tier, cfg):
     st = R.Streams(seed)
     k, o, f = st.knobs, st.ops, st.faults
@@ -149,6 +180,8 @@ def generate(seed, tier, cfg):
         asc = tiny_fine(k)
     elif x < 0.09:
         asc = tiny_hemiola(k)
+    elif x < 0.13:
+        asc = tiny_pickup_half(k)
     # the format stores no measure lengths: what follows the last score note cannot be known, so the
     # final measure must hold a pitched note that ends with it (precondition "complete final measure")
     ap = asc["parts"][0]
